@@ -190,10 +190,13 @@ static const char *HEXU = "0123456789ABCDEF", *HEXL = "0123456789abcdef";
 // percent-encode; `form`: blank may become '+'.  Choices drawn from rapidcheck.  `keep` = extra characters that may stay raw.
 static std::string pct_encode(std::string const &s, bool form, const char *keep) {
     std::string o;
+    // long strings: one draw seeds the per-character choices (tens of thousands of individual draws make shrinking crawl)
+    bool cheap = s.size() > 48; unsigned lcg = cheap ? (unsigned)*vr::range<int>(1, 1 << 30) : 0;
     for (unsigned char c : s) {
         bool raw_ok = unreserved(c) || (c && strchr(keep, c));
         if (c == '/' && strchr(keep, '/')) { o += '/'; continue; }   // path separators are never escaped (%2F is not '/')
-        int choice = *vr::range<int>(0, 10);
+        int choice;
+        if (cheap) { lcg = lcg * 1103515245u + 12345u; choice = (int)((lcg >> 16) % 10); } else choice = *vr::range<int>(0, 10);
         if (form && c == ' ' && choice < 5) { o += '+'; continue; }
         if (raw_ok && choice < 8) { o += char(c); continue; }
         const char *H = choice & 1 ? HEXU : HEXL;
